@@ -119,6 +119,14 @@ Definition se_bbox (s : sector) : rect := R (se_tl s) (S (se_d s) (se_d s)).
 Definition se_offset (s : sector) (off : Z) : sector :=
   let c := sc_offset (se_to_circle s) off in Sec (sc_tl c) (sc_d c) (se_ps s).
 
+(* sector/mod.rs:67-81 with_center: `Rectangle::with_center(center, Size::new_equal(diameter)).top_left` *)
+Definition se_with_center (ctr : point) (d : Z) (ps : plane_sector) : sector :=
+  Sec (tl (with_center ctr (S d d))) d ps.
+(* sector/mod.rs:83-90 from_circle *)
+Definition se_from_circle (c : sm_circle) (ps : plane_sector) : sector := Sec (sc_tl c) (sc_d c) ps.
+(* sector/mod.rs:92-94 center: bounding_box().center() *)
+Definition se_center (s : sector) : point := center (se_bbox s).
+
 (* sector/mod.rs:122-131 ContainsPoint *)
 Definition se_contains (s : sector) (p : point) : bool :=
   if sc_contains (se_to_circle s) p
@@ -206,6 +214,11 @@ Record arc := Arc { ar_tl : point; ar_d : Z; ar_ps : plane_sector }.
 Definition ar_to_circle (a : arc) : sm_circle := SC (ar_tl a) (ar_d a).
 (* arc/mod.rs:107-111 *)
 Definition ar_bbox (a : arc) : rect := R (ar_tl a) (S (ar_d a) (ar_d a)).
+(* arc/mod.rs:59-71 with_center: from_circle(Circle::with_center(center, diameter), ..) *)
+Definition ar_from_circle (c : sm_circle) (ps : plane_sector) : arc := Arc (sc_tl c) (sc_d c) ps.
+Definition ar_with_center (ctr : point) (d : Z) (ps : plane_sector) : arc := ar_from_circle (sc_with_center ctr d) ps.
+(* arc/mod.rs:88-90 center *)
+Definition ar_center (a : arc) : point := center (ar_bbox a).
 (* arc/mod.rs:114-128 *)
 Definition ar_translate (a : arc) (by_ : point) : arc := Arc (padd (ar_tl a) by_) (ar_d a) (ar_ps a).
 
